@@ -11,6 +11,8 @@ import itertools
 import warnings
 
 import numpy as np
+
+from .. import harness as H
 import pandas as pd
 
 PID = "C19"
@@ -204,9 +206,9 @@ def shard_offaxis(spec, R):
         if R.out_of_time():
             break
         L = int(rng.integers(1, 13))
-        dim = ["band", "time", "time", "lag", "time", "depth"][it % 6]
-        da, data, axis = make_cube(rng, L, dim, bool(it % 3 == 0))
-        fname = ["sum", "mean", "full"][it % 3]
+        dim = ["band", "time", "time", "lag", "time", "depth"][H.pick(it, 1, 6)]
+        da, data, axis = make_cube(rng, L, dim, bool(H.pick(it, 2, 3) == 0))
+        fname = ["sum", "mean", "full"][H.pick(it, 3, 3)]
         n = int(rng.integers(1, L + 2))
         method = [None, "nearest", "ffill", "bfill"][int(rng.integers(0, 4))]
 
